@@ -5,6 +5,7 @@ import (
 	"sort"
 	"strconv"
 	"strings"
+	"time"
 
 	"github.com/coreruleset/crs-toolchain/v2/regex"
 	"github.com/coreruleset/crs-toolchain/v2/regex/operators"
@@ -130,7 +131,7 @@ func suitePasses(env *Env, res *Result) {
 }
 
 var cmdWords = []string{"ls", "cat", "nc.traditional", "apt-get", "python3", "time", "a b", "w@", "w~", "w\\@", "w\\~", "w\\\\@", "@", "~", "\\@", "'lit.eral", "'", "x", "", "g++", "7z", "c99", "a  b", "é", "-", ".", "a\\", "a@b", "ab@@", "foo\\", "\\", "'x@"}
-var evasionPatterns = []string{"", "[\\x5c'\\\"]*", "_av-u_", "[\"\\^]*", "(?:\\s|<|>).*", "[^a-z]?", "a|b", "(?:x|y)", " [\\s,;]* ", "\\b", "\t_s_\n"}
+var evasionPatterns = []string{"", "[^ a-z0-9]*", "[\\x5c'\\\"]*", "_av-u_", "[\"\\^]*", "(?:\\s|<|>).*", "[^a-z]?", "a|b", "(?:x|y)", " [\\s,;]* ", "\\b", "\t_s_\n"}
 
 func genCmdWord(r *Rng) string {
 	if r.Chance(2, 3) {
@@ -252,6 +253,17 @@ func genDefSource(r *Rng, names []string, hostile bool) string {
 	return sb.String()
 }
 
+func expandWithTimeout(src string, vars map[string]string) (string, bool) {
+	ch := make(chan string, 1)
+	go func() { ch <- parser.VerifExpandDefinitions(src, vars) }()
+	select {
+	case o := <-ch:
+		return o, false
+	case <-time.After(3 * time.Second):
+		return "", true
+	}
+}
+
 func suiteExpandDefs(env *Env, res *Result) {
 	res.Rule = "0..4 definitions (acyclic reference chains, values with quantifier braces, undefined references; 25% hostile: cycles, self references, stray and nested braces) x sources with references at any position: expandDefinitions (Go map order) vs. the set of results of the Gallina model over all orders of both loops (all 576 order pairs of both loops); non-trivial = some reference is replaced"
 	r := NewRng(env.Seed + 13)
@@ -267,7 +279,14 @@ func suiteExpandDefs(env *Env, res *Result) {
 		for k, v := range m {
 			cp[k] = v
 		}
-		out := parser.VerifExpandDefinitions(src, cp)
+		out, hung := expandWithTimeout(src, cp)
+		if hung {
+			res.addFailure(Failure{Kind: "C19", Shape: "expand_definitions_hang", Input: map[string]interface{}{"definitions": m, "source": src}, Detail: "expandDefinitions did not return within 3 s"})
+			cases = append(cases, CorrCase{Fields: []string{"expand_defs", smapArg(m, names), hx(src), "hostile"}, Impl: "HANG", Human: fmt.Sprintf("expand %q in %q", m, src), Class: "hang"})
+			hostiles = append(hostiles, true)
+			inputs = append(inputs, [2]interface{}{m, src})
+			continue
+		}
 		cls := ""
 		if out != src {
 			cls = "expand"
@@ -275,7 +294,11 @@ func suiteExpandDefs(env *Env, res *Result) {
 				cls = "expand-hostile"
 			}
 		}
-		cases = append(cases, CorrCase{Fields: []string{"expand_defs", smapArg(m, names), hx(src)}, Impl: "OK\t" + hx(out), Human: fmt.Sprintf("expand %q in %q", m, src), Class: cls})
+		mode := "safe"
+		if hostile {
+			mode = "hostile"
+		}
+		cases = append(cases, CorrCase{Fields: []string{"expand_defs", smapArg(m, names), hx(src), mode}, Impl: "OK\t" + hx(out), Human: fmt.Sprintf("expand %q in %q", m, src), Class: cls})
 		hostiles = append(hostiles, hostile)
 		inputs = append(inputs, [2]interface{}{m, src})
 	}
@@ -308,7 +331,7 @@ func suiteExpandDefs(env *Env, res *Result) {
 	}
 }
 
-var suffixKeys = []string{"@", "~", "a", "b", "c", "xa", "ing", "s", "\"\"", "é", "ab"}
+var suffixKeys = []string{"@", "~", "a", "b", "c", "xa", "ing", "s", "\"\"", "é", "ab", "\\b", "ub"}
 
 func genPairMap(r *Rng) (map[string]string, []string) {
 	n := r.Range(1, 4)
@@ -339,7 +362,11 @@ func suiteReplaceSuffixes(env *Env, res *Result) {
 			case 0:
 				sb.WriteString(r.Pick([]string{"##! comment a", "##!> assemble", "##!<", "", " ", "\t", "  # a"}))
 			default:
-				sb.WriteString(r.Pick([]string{"x", "foo", "cmd", "w", "ya", "zb", "time", "ls"}) + r.Pick(append([]string{"", ""}, suffixKeys...)))
+				e := r.Pick([]string{"x", "foo", "cmd", "w", "ya", "zb", "time", "ls", "user@", "grub", "xa"}) + r.Pick(append([]string{"", ""}, suffixKeys...))
+				if r.Chance(1, 6) {
+					e += r.Pick(suffixKeys) // the key twice, or a key right after another one
+				}
+				sb.WriteString(e)
 			}
 			if r.Chance(1, 10) {
 				sb.WriteString("\r")
@@ -369,6 +396,41 @@ func suiteReplaceSuffixes(env *Env, res *Result) {
 		rsInputs[len(cases)-1] = [2]interface{}{m, content}
 	}
 	outs := compareWithModelAlt(env, res, cases)
+	// C06 directly on the code, for a single pair (no order involved): an entry that ends in the key
+	// gets exactly that ending replaced (deleted for the empty marker), everything else is untouched
+	for i := range cases {
+		in, ok := rsInputs[i]
+		if !ok {
+			continue
+		}
+		m := in[0].(map[string]string)
+		content := in[1].(string)
+		if len(m) != 1 || strings.Contains(content, "\r") {
+			continue
+		}
+		var key, val string
+		for k, v := range m {
+			key, val = k, v
+		}
+		var want strings.Builder
+		for _, l := range strings.Split(strings.TrimSuffix(content, "\n"), "\n") {
+			if content == "" {
+				break
+			}
+			isSkip := strings.HasPrefix(l, "##!") || strings.TrimLeft(l, " \t\n\f\r") == ""
+			if !isSkip && strings.HasSuffix(l, key) {
+				l = l[:len(l)-len(key)]
+				if val != "\"\"" {
+					l += val
+				}
+			}
+			want.WriteString(l + "\n")
+		}
+		got, _ := parser.VerifReplaceSuffixes(content, m)
+		if got != want.String() {
+			res.addFailure(Failure{Kind: "C06", Shape: "c06_suffix_rewrite_wrong", Input: map[string]interface{}{"pairs": m, "content": content}, Detail: fmt.Sprintf("got %q, the property asks for %q", got, want.String())})
+		}
+	}
 	for i, o := range outs {
 		if !strings.HasPrefix(o, "ORDER-DEPENDENT") {
 			continue
